@@ -10,7 +10,8 @@ event stream over a token-gated recording client (hook constructor, real 512-slo
   `stop`                            → Stop() + drain: the remaining records
 query stream over a hand-fed QueryResponse (timing free → not compared, monitor only):
   `qs <seq> <ack> <ms>` `qack <from>` `qresp <from> <payload>` `qclose` `qsleep <us>` `qend`
-  `esrace <filterhex> <kind> <namehex|->` → Stop() then HandleEvent on the real stream: `ok` | `panicked`
+  `esrace <filterhex> <kind> <namehex|->` → Stop(); Stop(); HandleEvent on the real stream: `ok` | `panicked` | `sent`
+  `esstress <filterhex> <n>`              → 4 goroutines × n HandleEvent racing one Stop(): `ok` | `panicked` | `sent-after-stop`
 end to end over the socket:
   `e2e <filterhex> <seq> <names>`   → the user-event records up to the end marker, `seq:u:namehex:idx+…`
   `e2eother`                        → number of non-user records (monitor only)
@@ -156,14 +157,21 @@ def step (s : St) (op : List String) (impl : String) : LineOut St :=
     let (s2, m) := monitorStream s1 impl true
     { state := s2, model := some (recordsSince s s1), monitor := m }
   | ["esrace", f, k, n] =>
-    -- Stop() and then HandleEvent: the order the agent's eventLoop can produce (recorded finding)
+    -- Stop(); Stop(); HandleEvent: the order the agent's eventLoop can produce
     match stringOfHex? f, (if n == "-" then some "" else stringOfHex? n) with
     | some fl, some nm =>
-      let r := handleEventOn (parseFilters fl) true { kind := k, name := nm }
-      { state := s, model := some (if r == .panic then "panicked" else "ok"),
-        monitor := if impl == "panicked" then
-            some ("event-after-stop-panic", "HandleEvent after Stop(): send on closed channel (this panic kills the agent process)") else none }
+      let r := callRun goodShape (parseFilters fl) chanCap {} [.stop, .stop, .handle { kind := k, name := nm }]
+      { state := s, model := some (if r.panicked then "panicked" else "ok"),
+        monitor := if impl != "ok" then
+            some ("event-after-stop-panic", s!"Stop(); Stop(); HandleEvent must neither panic nor send: {impl}") else none }
     | _, _ => { state := s, model := some "bad-op" }
+  | ["esstress", f, _] =>
+    -- HandleEvent from several goroutines while Stop runs: any interleaving of whole calls
+    match stringOfHex? f with
+    | some _ => { state := s, model := some "ok",
+                  monitor := if impl != "ok" then
+                    some ("event-after-stop-panic", s!"HandleEvent concurrent with Stop panicked or sent after Stop: {impl}") else none }
+    | none => { state := s, model := some "bad-op" }
   | ["qs", q, _, _] =>
     match q.toNat? with
     | some sq => { state := { s with qseq := sq, qacks := [], qresps := [] }, model := some "ok" }
